@@ -1,3 +1,113 @@
 package main
 
-func selftestCmd(verifDir, repoDir string, names []string) int { return 0 }
+import (
+	"fmt"
+	"os"
+	"os/exec"
+	"path/filepath"
+	"sort"
+	"strings"
+	"time"
+
+	"verif/sim/instr"
+)
+
+// selftestCmd applies every catalogued mutant (mutants/m*.diff: must be
+// detected) and control (mutants/n*.diff: must stay silent) to a scratch copy
+// of the repository's working tree and runs the quick check against it.
+// It is not a property check: it measures the machinery's sensitivity and silence.
+func selftestCmd(verifDir, repoDir string, names []string) int {
+	all, _ := filepath.Glob(filepath.Join(verifDir, "mutants", "*.diff"))
+	sort.Strings(all)
+	want := map[string]bool{}
+	for _, n := range names {
+		want[n] = true
+	}
+	self, _ := os.Executable()
+	tier := envOr("SELFTEST_TIER", "quick")
+	bad := 0
+	type row struct {
+		name, expect, got string
+		wall          float64
+		line          string
+	}
+	var rows []row
+	for _, p := range all {
+		name := strings.TrimSuffix(filepath.Base(p), ".diff")
+		if len(want) > 0 && !want[name] && !want[strings.SplitN(name, "_", 2)[0]] {
+			continue
+		}
+		scratch := newScratch()
+		tree := filepath.Join(scratch, "tree")
+		if _, _, err := instr.SnapshotPlain(repoDir, tree); err != nil {
+			harnessFail("selftest: %v", err)
+		}
+		// fixtures are part of the corpus
+		exec.Command("cp", "-r", filepath.Join(repoDir, "tests"), filepath.Join(tree, "tests")).Run()
+		if out, err := run(tree, os.Environ(), "patch", "-p1", "-s", "-i", p); err != nil {
+			fmt.Printf("%-34s PATCH-FAILED %s\n", name, strings.TrimSpace(out))
+			bad++
+			os.RemoveAll(scratch)
+			continue
+		}
+		outDir := filepath.Join(scratch, "out")
+		os.MkdirAll(outDir, 0o755)
+		cmd := exec.Command(self, "C05", tier)
+		cmd.Env = append(os.Environ(), "VERIF_REPO="+tree, "VERIF_OUT="+outDir, "VERIF_DIR="+verifDir)
+		t0 := time.Now()
+		out, err := cmd.CombinedOutput()
+		code := 0
+		if err != nil {
+			if ee, ok := err.(*exec.ExitError); ok {
+				code = ee.ExitCode()
+			} else {
+				code = -1
+			}
+		}
+		expect := "detect"
+		if strings.HasPrefix(name, "n") {
+			expect = "silent"
+		}
+		got := map[int]string{0: "silent", 1: "detect", 2: "harness-error"}[code]
+		if got == "" {
+			got = fmt.Sprintf("exit %d", code)
+		}
+		line := ""
+		for _, l := range strings.Split(string(out), "\n") {
+			if strings.HasPrefix(l, "VIOLATION") || strings.HasPrefix(l, "HARNESS-ERROR") {
+				line = l
+				break
+			}
+		}
+		if line != "" && strings.HasPrefix(line, "VIOLATION") {
+			// show the one-line summary of the replay
+			if i := strings.Index(line, "replay="); i >= 0 {
+				if data, err := os.ReadFile(strings.TrimSpace(line[i+7:])); err == nil {
+					s := string(data)
+					if k := strings.Index(s, `"summary": "`); k >= 0 {
+						s = s[k+12:]
+						if j := strings.Index(s, "\",\n"); j >= 0 {
+							line = trunc(s[:j], 160)
+						}
+					}
+				}
+			}
+		}
+		rows = append(rows, row{name, expect, got, time.Since(t0).Seconds(), line})
+		status := "ok  "
+		if expect != got {
+			status = "FAIL"
+			bad++
+			if os.Getenv("SELFTEST_VERBOSE") != "" {
+				fmt.Println(tail(string(out), 3000))
+			}
+		}
+		fmt.Printf("%s %-36s expect=%-6s got=%-13s %5.1fs  %s\n", status, name, expect, got, time.Since(t0).Seconds(), line)
+		os.RemoveAll(scratch)
+	}
+	fmt.Printf("selftest: %d cases, %d failed\n", len(rows), bad)
+	if bad > 0 {
+		return 1
+	}
+	return 0
+}
